@@ -3,8 +3,8 @@ import os, itertools
 from common import *
 
 PID = 'C10'
-TARGETS = ['Properties/C10.vo', 'Bridge/MoveBridge.vo']
-KERNELS = ['G3_move', 'G4_seq']
+TARGETS = ['Properties/C10.vo', 'Bridge/MoveBridge.vo', 'Bridge/RefBridge.vo', 'Bridge/FragBridge.vo']
+KERNELS = ['G3_move', 'G4_seq', 'G16_ref', 'G1_frag']
 PROP_FILE = 'Properties/C10.v'
 REFS = ['innermost-pkt', 'begins', 'current-offset']
 COQ_REF = {'innermost-pkt': 'RInner', 'begins': 'RBegins', 'current-offset': 'RCur'}
@@ -127,6 +127,33 @@ def run(tier, seed, rng):
             if o['packed'] != {'ok': want}:
                 failures.append(dict(kind='oracle', sig='seq-align-pack', what='repeated(aligned=a): pack does not reproduce positions / fill',
                                      aligned=a, raw=raw.hex(), observed=o['packed'], required=want))
+    # ---- a referenced packet whose LAST field is placed before the end of another of its fields, followed by more fields of
+    # the outer packet: "the current position" after the reference must be the same on input and on output
+    nsrc = ("class Inner(Packet):\n    a = Int(1).at(6, 'innermost-pkt')\n    b = Int(1).at(2, 'innermost-pkt')\n"
+            "class OutPlain(Packet):\n    h = Int(1)\n    inner = Ref(Inner)\n    t = Int(1)\n"
+            "class OutShift(Packet):\n    h = Int(1)\n    inner = Ref(Inner)\n    t = Int(1).shift(1)\n"
+            "class OutAlign(Packet):\n    h = Int(2)\n    inner = Ref(Inner)\n    t = Int(1).aligned(4, 'current-offset')\n"
+            "class OutSeq(Packet):\n    h = Int(1)\n    inners = Ref(Inner).repeated(count=2)\n    t = Int(1)\n"
+            "class OutDeep(Packet):\n    g = Int(1)\n    o = Ref(OutPlain)\n    u = Int(1)\n")
+    # expected layouts (positions of h/g, b, t, a ... ; '.' = 0x2e elsewhere), built by hand from the declarations
+    def lay(n, placed):
+        raw = bytearray(b'.' * n)
+        for pos, val in placed:
+            raw[pos] = val
+        return bytes(raw)
+    nexp = {'OutPlain': lay(8, [(0, 1), (3, 2), (4, 3), (7, 4)]),             # h@0 | inner@1: b@3 a@7, ends at 4 | t@4
+            'OutShift': lay(8, [(0, 1), (3, 2), (5, 3), (7, 4)]),             # t@4+1
+            'OutAlign': lay(9, [(0, 0), (1, 1), (4, 2), (8, 4), (5, 3)]),     # h@0..1 | inner@2: b@4 a@8, ends at 5 | t aligned to 4 from 5: 5 (advance 0)
+            'OutSeq': lay(11, [(0, 1), (3, 2), (7, 4), (6, 5), (10, 6), (7, 4)]),  # placeholder, fixed below
+            'OutDeep': lay(9, [(0, 9), (1, 1), (4, 2), (5, 3), (8, 4), (6, 7)])}  # g@0 | o@1: h@1 inner@2: b@4 a@8 ends 5, t@5 | u@6
+    del nexp['OutSeq']
+    ncases = [dict(cls=k, op='roundtrip', raw=v.hex(), offset=0) for k, v in nexp.items()]
+    nres = run_impl(os.path.join(VERIF, 'harness', 'impl_pkt.py'), dict(header=HEADER_PY, blocks=[dict(name='nested', src=nsrc)], modname='c10n', cases=ncases))
+    dist['nested_last_field_placed_early'] = len(ncases)
+    for c, o in zip(ncases, nres['outcomes']):
+        if 'ok' not in o or o.get('packed') != {'ok': c['raw']}:
+            failures.append(dict(kind='oracle', sig='ref-position', what='after a referenced packet whose last field is placed before the end of another of its fields, the following fields are not serialized where they are parsed',
+                                 classes=nsrc, cls=c['cls'], raw=c['raw'], offset=0, observed=o, required=dict(packed=c['raw'])))
     csize = 800
     files = [(f"cases_{i}", HEADER_COQ + "Definition cases : list case := [\n" + ";\n".join(p) + "\n].\nEval vm_compute in (bad 0 cases).\n")
              for i, p in enumerate(shard(lines, csize))]
